@@ -20,6 +20,7 @@ func init() {
 			"C15.3 method pairing: every krpc type with MarshalBencode/MarshalBinary has the matching Unmarshal on its pointer and vice versa; the nodes file is written and read through the same compact type, and the writer replaces the file (create+truncate); " +
 			"C15.4 tag table: within every wire struct (embedded structs flattened) bencode keys are unique and every field has a tag; " +
 			"C15.6 every error result returned anywhere under the krpc Marshal* methods is nil or handed up from a callee - none is constructed there - so encoding a message assembled by the handlers cannot fail (and MustMarshal in reply() cannot panic) because of a field value such as an out-of-range port taken from the wire; " +
+			"C15.7 in every library function with an error result that calls a krpc / bencode decoder, each return on a path on which that decoder reported an error carries a non-nil error (\"any other length is an error\" also at ReadNodesFromFile and the bencode entry points); " +
 			"C15.5 encoding is read-only on the message: in everything reachable from the krpc Marshal* methods no append, copy or element store has a destination that is (part of) a field of the value being encoded - append into a message slice would write its spare capacity, which may alias a neighbouring address.",
 		NotDecided: "round-trip identity and decode→encode fixpoint over all values (a value-level statement about the bencode library and net.IP forms); acceptance of every multiple-of-ElemSize input.",
 		Assume:     []string{"github.com/anacrolix/torrent/bencode re-panics runtime errors raised inside UnmarshalBencode callbacks (read in its decoder), so decoder guards are load-bearing"},
@@ -29,6 +30,7 @@ func init() {
 			{ID: "C15.3", Doc: "Marshal/Unmarshal pairing; nodes file", Floor: 8, Run: c15r3},
 			{ID: "C15.4", Doc: "bencode tags unique and complete", Floor: 5, Run: c15r4},
 			{ID: "C15.6", Doc: "encoders do not refuse values: no krpc Marshal* path constructs an error of its own (replies are encoded with MustMarshal in a bare goroutine)", Floor: 10, Run: c15r6},
+			{ID: "C15.7", Doc: "a decoder's refusal is never swallowed: a function that saw a decoder fail returns an error", Floor: 5, Run: c15r7},
 			{ID: "C15.5", Doc: "encoders do not write into the message they encode", Floor: 3, Run: c15r5},
 		},
 	})
@@ -656,4 +658,96 @@ func c15r6(w *World, rr *RuleRun) {
 	if n == 0 {
 		rr.Broken("no error-returning function under the krpc Marshal* methods")
 	}
+}
+
+// c15r7: errors of the decoders propagate.
+func c15r7(w *World, rr *RuleRun) {
+	errT := types.Universe.Lookup("error").Type()
+	isDecoderCall := func(t *Term) bool {
+		if t.Op == OpExtract && len(t.Args) == 1 {
+			t = t.Args[0]
+		}
+		if t.Op != OpCall && t.Op != OpDyn {
+			return false
+		}
+		n := t.Name
+		return strings.Contains(n, "Unmarshal") || strings.Contains(n, "unmarshal")
+	}
+	n := 0
+	for _, f := range w.P.LibFuncs {
+		res := f.Signature.Results()
+		if res.Len() == 0 || !types.Identical(res.At(res.Len()-1).Type(), errT) || len(f.Blocks) == 0 {
+			continue
+		}
+		calls := false
+		eachInstr([]*ssa.Function{f}, func(_ *ssa.Function, ins ssa.Instruction) {
+			if c := callInstrCommon(ins); c != nil {
+				if v, ok := ins.(ssa.Value); ok && isDecoderCall(w.TS.Of(v)) {
+					calls = true
+				}
+			}
+		})
+		if !calls {
+			continue
+		}
+		fa := w.FE.analysisFor(f)
+		for _, ex := range fa.exits {
+			if len(ex.ret.Results) != res.Len() {
+				continue
+			}
+			bad := ""
+			seen := false
+			for _, alt := range ex.st {
+				failed := alt.Has("n", true, isDecoderCall)
+				if !failed {
+					continue
+				}
+				seen = true
+				rv := w.FE.Resolve(alt, ex.ret.Results[res.Len()-1])
+				if rv.IsConst("nil") || alt.HasKey("n", rv, false) {
+					bad = "returns " + trunc(rv.String(), 80) + " (nil) although the decoder failed on this path"
+				}
+			}
+			if !seen {
+				continue
+			}
+			n++
+			rr.At(w, ex.ret, "a failed decode is reported by the caller's error result", bad == "", bad)
+		}
+	}
+	if n == 0 {
+		rr.Broken("no function propagating a decoder error found")
+	}
+	// the error result of a decoder call is looked at (not dropped on the floor)
+	eachInstr(w.P.LibFuncs, func(f *ssa.Function, ins ssa.Instruction) {
+		c, ok := ins.(*ssa.Call)
+		if !ok || !isDecoderCall(w.TS.Of(c)) {
+			return
+		}
+		rs := c.Common().Signature().Results()
+		if rs.Len() == 0 || !types.Identical(rs.At(rs.Len()-1).Type(), errT) {
+			return
+		}
+		used := false
+		if c.Referrers() != nil {
+			for _, r := range *c.Referrers() {
+				switch x := r.(type) {
+				case *ssa.DebugRef:
+				case *ssa.Extract:
+					if x.Index == rs.Len()-1 && x.Referrers() != nil {
+						for _, r2 := range *x.Referrers() {
+							if _, dbg := r2.(*ssa.DebugRef); !dbg {
+								used = true
+							}
+						}
+					}
+				default:
+					if rs.Len() == 1 {
+						used = true
+					}
+				}
+			}
+		}
+		rr.At(w, ins, "the decoder's error result is used", used, trunc(w.TS.Of(c).String(), 100))
+	})
 }
